@@ -69,6 +69,62 @@ func (c *recClock) Sleep(d time.Duration)                              { time.Sl
 
 var clk = &recClock{}
 
+// ---------------------------------------------------------------- starvation witness
+
+// A heartbeat goroutine notes the largest gap between two of its 500 µs ticks since the last reset. The
+// clients run inside this process: when the machine is so loaded that the process does not get to run for
+// tens of milliseconds, a client can miss its (real-time) deadline between two statements — e.g. decide to
+// retry and then find the socket deadline passed although the next datagram is already queued. Such an
+// exchange says nothing about the code; it is discarded (and counted), never reported. A defect of the
+// code does not make the heartbeat miss its ticks.
+var beat struct {
+	mu     sync.Mutex
+	last   time.Time
+	maxGap time.Duration
+	on     bool
+}
+
+func startHeartbeat() {
+	beat.mu.Lock()
+	if beat.on {
+		beat.mu.Unlock()
+		return
+	}
+	beat.on, beat.last = true, time.Now()
+	beat.mu.Unlock()
+	go func() {
+		for {
+			time.Sleep(500 * time.Microsecond)
+			now := time.Now()
+			beat.mu.Lock()
+			if g := now.Sub(beat.last); g > beat.maxGap {
+				beat.maxGap = g
+			}
+			beat.last = now
+			beat.mu.Unlock()
+		}
+	}()
+}
+
+func resetHeartbeat() {
+	startHeartbeat()
+	beat.mu.Lock()
+	beat.last, beat.maxGap = time.Now(), 0
+	beat.mu.Unlock()
+}
+
+// starved: the process was not scheduled for more than limit at some point since resetHeartbeat.
+func starved(limit time.Duration) bool {
+	now := time.Now()
+	beat.mu.Lock()
+	defer beat.mu.Unlock()
+	g := beat.maxGap
+	if d := now.Sub(beat.last); d > g {
+		g = d
+	}
+	return g > limit
+}
+
 // ---------------------------------------------------------------- recording filter
 
 type recFilter struct {
@@ -487,6 +543,7 @@ func exchange(c *lib.Ctx, lc liveClient, cfg exchCfg, sc script) (res exchResult
 		}
 	}
 	clk.reset(ov...)
+	resetHeartbeat()
 	liveZone, livePort = cfg.zone, cfg.port
 	defer func() { liveZone, livePort = "", 0 }()
 	ctx := context.Background()
@@ -552,6 +609,12 @@ func exchange(c *lib.Ctx, lc liveClient, cfg exchCfg, sc script) (res exchResult
 	}
 	if S != 0 {
 		p.remember(res.ri, theta, S)
+	}
+	if cfg.deadline != 0 && starved(cfg.deadline/8) {
+		// the process stalled for a noticeable part of the exchange's real-time deadline: what the client
+		// found on its socket when is not what the recorded order says
+		c.Count("discarded:process-starved")
+		return
 	}
 	res.valid = true
 	return
@@ -959,9 +1022,16 @@ func recordIP(c *lib.Ctx, tag string, cfg exchCfg, res exchResult) int {
 	// recorded reading is the one it compared with the deadline (under machine load the deadline may
 	// have passed by the time the first refused datagram is looked at)
 	before := "1"
-	if cfg.deadline != 0 && cfg.zone == "" && len(res.rd) >= 3 && res.rd[2] >= res.deadlineAt.UnixNano() {
-		before = "0"
-		c.Count(tag + ":deadline-passed-at-first-refusal")
+	if cfg.deadline != 0 && cfg.zone == "" {
+		for _, x := range res.rd {
+			if x > res.recvAt { // the first reading taken after the request had reached the peer
+				if x >= res.deadlineAt.UnixNano() && len(res.sent) > 0 {
+					before = "0"
+					c.Count(tag + ":deadline-passed-at-first-refusal")
+				}
+				break
+			}
+		}
 	}
 	op := fmt.Sprintf("cli.exch tr=%s il=%s nts=%s dl=%s filt=%s %s ref=same prev=%s now=%d ctx1=%d ev=%s",
 		res.tr, ilS, lib.Bool(cfg.nts), dlS, filt, res.hdr, prevStr(res.prev0, reference), res.now0, ctx1,
